@@ -344,6 +344,11 @@ func checkC07(w *World, r *Run) {
 			r.Check(got[fl], ruleFwd, "(*outboxStorage)."+mf.method+" synchronous when "+fl+" is set", fd.Pos(), "part of "+mf.varName, "a write carrying "+fl+" can be queued: its precondition would be evaluated (or dropped) at replay time")
 		}
 	}
+	// a condition is evaluated by the inner storage: it must see every write that was
+	// acknowledged before, i.e. the forward is preceded by a drain of the key's queue
+	ruleDrained := r.Rule("conditions-are-evaluated-on-drained-state", "F1",
+		"the outbox forwards PutObject, DeleteObject, CompleteMultipartUpload, CopyObject and AppendObject to the inner storage only after an error-checked drain covering the key's queued entries and the bucket-global ones", 5)
+	checkOutboxDrain(w, r, ruleDrained, map[string]bool{"PutObject": true, "DeleteObject": true, "CompleteMultipartUpload": true, "CopyObject": true, "AppendObject": true})
 	r.NotCovered("interleavings of concurrent writers (the rules decide that the CAS and the unique index are on every conditional path, not the outcome of races); transaction isolation of the databases")
 	_ = types.Universe
 	_ = sort.Strings
